@@ -98,6 +98,23 @@ def run(chk, prog):
                        'empties that list (blocks emptying it: %s): every later continue re-delivers them'
                        % (lst, [ci.loc(b) for b in clearing[lst]] or 'none'), ci.loc(bb), {'witness_blocks': w})
 
+    # ---- (a') nothing is delivered while a rewind is still possible
+    R_F = 'C13.no-delivery-while-a-rewind-is-pending'
+    chk.rule(R_F, 'No call of ErrorHandler::error (and no clearing of the message lists) in continue_internal is reachable '
+             'with a look-ahead snapshot pending: the snapshot holds its own copy of the messages raised before the line end '
+             'and is not cleared by the reset, so a rewind in a later slice of a time-limited continue would deliver them '
+             'again - and the look-ahead\'s own messages would be raised again when the rewound content re-runs.')
+    from rules.c17 import snapshot_flow
+    gfs = snapshot_flow(prog, tr, Effects(prog, tracer=tr), ci)
+    for i, (bb, t, lists) in enumerate(deliveries):
+        vs = gfs.valuations_at(bb, ['snap', 'async'])
+        bad_v = [v for v in vs if v.get('snap') is not False]
+        chk.decide(R_F, chk.key(R_F, 'delivery#%d' % i), bool(vs) and not bad_v,
+                   'reached only with no snapshot pending',
+                   'the error handler is called while a look-ahead snapshot may be pending (%s): when continue_async '
+                   'pauses inside the look-ahead the same warning is delivered again after the rewind' % bad_v[:2],
+                   ci.loc(bb))
+
     # ---- (e) without a handler a warning stays readable
     def atom_h(desc):
         if desc[0] == 'is_some' and 'field:Story::on_error' in desc[1]:
